@@ -150,6 +150,8 @@ class TifaCore:
         self.path_names = ['*Module']
         self.scope_names = ['*Module']
         self.node_chain = []
+        # Student files visited by THIS analysis (their functions close over this analysis's scope ids)
+        self.student_modules = {}
 
         # Complete record of all Names
         self.scope_chain = [self.scope_id]
@@ -453,6 +455,8 @@ class TifaCore:
                         module type.
         """
         module_names = chain.split('.')
+        if chain in self.student_modules:
+            return self.student_modules[chain]
         for potential_module in [self.report[TOOL_NAME]['types']['modules'].get(module_names[0]),
                                  get_builtin_module(module_names[0])]:
             if potential_module is not None:
@@ -481,8 +485,8 @@ class TifaCore:
             try:
                 # TODO: Doesn't import toplevels as variables.
                 # TODO: Allow variables to be unused inside the file
-                self.report[TOOL_NAME]['types']['modules'][chain] = self._visit_module(chain, filename, code)
-                return self.report[TOOL_NAME]['types']['modules'][chain]
+                self.student_modules[chain] = self._visit_module(chain, filename, code)
+                return self.student_modules[chain]
             except Exception as e:
                 error = e
         self._issue(module_not_found(self.locate(), chain, True, error, report=self.report))
